@@ -52,6 +52,9 @@ def signature(prop, kind, scenario, detail):
         return "C02;%s;%s;kind=%s;err=%s" % (ln.get("e", "?"), inv or "step", _find(scenario, "w").get("kind", "?"), ln.get("err"))
     if kind == "trace" and prop == "C04":
         ln = _last(scenario)
+        if ln.get("e") in ("cres", "panic", "hang") and _find(scenario, "hdr").get("conc"):
+            return "C04;concurrent-first-use;%s;decode-of-canonical-encoding-%s" % (
+                ln.get("e"), "failed" if not ln.get("ok", False) else "wrong-output")
         return "C04;%s;%s;len=%d" % (ln.get("e", "?"), ln.get("how", "roundtrip"), len(ln.get("in", ln.get("s", []))))
     if kind == "replay" and prop == "C02":
         step = (detail or {}).get("step")
@@ -65,3 +68,21 @@ def signature(prop, kind, scenario, detail):
         scn = scenario or {}
         return "C04;replay;%s;%s;len=%d" % (scn.get("k", "?"), what, len(scn.get("in") or []))
     return None
+
+
+def c04_record_with_first_use(ctx, stage):
+    """record_validate of the sequential traces plus the concurrent first-use rounds (same driver
+    run, same TLC run); adds an evidence note about the CPUs the rounds could use."""
+    import os
+    import stages
+    stages.stage_record_validate(ctx, stage["inner"])
+    try:
+        cpus = len(os.sched_getaffinity(0))
+    except Exception:
+        cpus = os.cpu_count() or 1
+    gmp = os.environ.get("GOMAXPROCS")
+    if gmp and gmp.isdigit():
+        cpus = min(cpus, int(gmp))
+    ctx.extra["first_use_rounds_cpus"] = cpus
+    if cpus < 2:
+        ctx.notes.append("concurrent first-use rounds ran with GOMAXPROCS < 2: the first-use race cannot be exercised on this machine")
